@@ -52,3 +52,28 @@ Fixpoint mismatches (s : schema) (i : Z) (l : list case) : list Z :=
   | [] => []
   | c :: r => if case_ok s c then mismatches s (i + 1) r else i :: mismatches s (i + 1) r
   end.
+
+(* tokeniser cases: a stub batch line (bytes) and what the real hermes2go answered for it:
+   the crop parameter name of "invalid crop parameter name: X", "" for "arguments required", "?" otherwise *)
+Fixpoint string_of_codes (l : list Z) : string :=
+  match l with [] => EmptyString | c :: r => String (Ascii.ascii_of_N (Z.to_N c)) (string_of_codes r) end.
+
+Definition drop2 (s : string) : string := match s with String _ (String _ r) => r | _ => s end.
+
+Definition tok_case_ok (c : list Z * string) : bool :=
+  let '(codes, observed) := c in
+  let m := glue_args (string_of_codes codes) in
+  match assoc "project" m, assoc "plotNr" m with
+  | Some _, Some _ =>
+      match crop_view m with
+      | [] => observed =? "?"
+      | names => existsb (fun e : string * string => drop2 (fst e) =? observed) names
+      end
+  | _, _ => observed =? ""
+  end.
+
+Fixpoint tok_mismatches (i : Z) (l : list (list Z * string)) : list Z :=
+  match l with
+  | [] => []
+  | c :: r => if tok_case_ok c then tok_mismatches (i + 1) r else i :: tok_mismatches (i + 1) r
+  end.
